@@ -51,12 +51,29 @@ for f in sorted(glob.glob("/verif/replays/C12/known-*.json")):
     if ALT in f:
         continue
     wit.setdefault(d["signature"], "replays/C12/" + os.path.basename(f))
+alt_entry = None
 for sig, what in W.items():
     out.append({"property": "C12", "signature": sig, "status": "open", "witness": wit.get(sig), "what": what})
     if sig == "C12/multi/p1-two-commands-in-one-ballot-and-slot":
         alt = [f for f in glob.glob("/verif/replays/C12/known-multi-p1-*.json") if ALT in f]
         if alt:
-            out.append({"property": "C12", "signature": sig, "status": "open", "witness": "replays/C12/" + os.path.basename(alt[0]),
-                        "what": what + " (second witness: reproduces on the tree with C12-multipaxos-own-heartbeat-timer.patch applied, where the first one does not; on the unpatched tree this entry is reported stale, which is harmless)"})
-json.dump({"findings": out}, open("/verif/scratch/proposed_findings_C12.json", "w"), indent=1)
-print(len(out), "entries;", sum(1 for e in out if e["witness"]), "with witness")
+            alt_entry = {"property": "C12", "signature": sig, "status": "open", "witness": "replays/C12/" + os.path.basename(alt[0]), "what": what}
+fixmap = {}
+for e in out:
+    m = re.search(r"\[fix: (?:scratch/fixes/)?(C12-[a-z0-9-]+\.patch)\]", e["what"])
+    if m:
+        fixmap.setdefault(m.group(1), []).append(e["signature"])
+doc = {
+ "_doc": "Proposed known_findings.json entries for C12 (all reproduce on /repo HEAD 6d111bd). 'findings' is directly usable with VFW_EXTRA_KNOWN. "
+         "'when_fix_committed' lists, per fix patch in scratch/fixes/, the signatures that disappear (turn them into status=fixed entries, their "
+         "witnesses then serve as regression replays) and witness replacements that become necessary.",
+ "findings": out,
+ "when_fix_committed": {k: {"signatures_fixed": v} for k, v in sorted(fixmap.items())},
+}
+if alt_entry:
+    doc["when_fix_committed"]["C12-multipaxos-own-heartbeat-timer.patch"]["replace_witness"] = [alt_entry]
+    doc["when_fix_committed"]["C12-multipaxos-own-heartbeat-timer.patch"]["note"] = (
+        "with this patch the first witness of C12/multi/p1-two-commands-in-one-ballot-and-slot no longer reproduces (the scenario depended on the "
+        "self-demotion); use the replacement witness, which reproduces only on the patched tree. All other multi/* witnesses reproduce on both trees.")
+json.dump(doc, open("/verif/scratch/proposed_findings_C12.json", "w"), indent=1)
+print(len(out), "entries;", sum(1 for e in out if e["witness"]), "with witness;", {k: len(v["signatures_fixed"]) for k, v in doc["when_fix_committed"].items()})
